@@ -73,6 +73,7 @@ type ctx struct {
 	mulThenOp   bool
 	sawMul      bool
 	mismatch    bool
+	reused      bool
 	nonCt       bool
 	errCases    int
 	overBudget  int
@@ -725,6 +726,9 @@ func (x *ctx) book() {
 	}
 	if !math.IsInf(x.minMarginLg, 1) {
 		rec.Note("min-margin-bits", x.minMarginLg)
+	}
+	if x.reused {
+		rec.Class("had-reused-receiver")
 	}
 	if len(x.trace) >= 3 && (x.mulThenOp || x.mismatch || x.nonCt) {
 		rec.NonTrivial(fmt.Sprintf("%s|logN%d|nQ%d|%s|%s|%s", x.mode, p.LogN, len(p.Q), gap, tcls, strings.Join(x.trace, ",")))
